@@ -209,12 +209,22 @@ def probe(wd, cfg, scfile, dev, expect, tag):
 def stimulus_paths(wd, cfg, scfile, rng, tag, max_paths=None, max_len=40):
     """TLC's explored graph (ideal rules, canonical revalidation) -> edge cover -> action lists"""
     cfgp = cfg_with_devs(wd, cfg, NODEV, "_" + tag)
-    r = vlib.run_tlc(wd, "MCPool", cfgp, workers=1, timeout=1200, env={"POOLSC": scfile}, tag=tag)
+    r = vlib.run_tlc(wd, "MCPool", cfgp, workers=4, timeout=1200, env={"POOLSC": scfile}, tag=tag)
     vlib.tlc_must_pass(r, cfg)
     by_sc = {}
     for raw in r.edges.raw:
         k = int(re.search(r'"sc":(\d+)', raw).group(1))
         by_sc.setdefault(k, vlib.EdgeList()).append_raw(raw)
+    # several workers print concurrently: path_cover takes the `from` of the FIRST edge as the initial
+    # state, so an edge leaving the initial state (nothing submitted, nothing offered) is moved to the front
+    for k, es in by_sc.items():
+        for i, raw in enumerate(es.raw):
+            f = json.loads(raw)["from"]
+            if f["tip"] == 1 and f["sub"] == [1] and not f["offered"] and not f["pool1"] and not f["pool2"] and not f["stale"] and not f["pc"]["busy"]:
+                es.raw[0], es.raw[i] = es.raw[i], es.raw[0]
+                break
+        else:
+            raise vlib.Infra("no edge leaves the initial state of scenario %d in %s" % (k, cfg))
     paths = []; nst = ned = 0; full = 0
     for k, es in sorted(by_sc.items()):
         s, n = vlib.graph_stats(es)
@@ -355,3 +365,155 @@ def leg_t(wd, binary, prop, mode, verdict, devs, histories, steps, shards=8, tag
         (mode, res["traces"], c.get("blocks", 0), c.get("transactions", 0), v["events"], res["wall"], len(res["mismatches"]), v["wall"], v["rejected"]))
     return dict(traces=res["traces"] - v["rejected"], events=v["events"], rejected=v["rejected"], trace_states=v["trace_states"],
                 evaluations=res["evaluations"], distinct=res["distinct"], samples=res["samples"], counts=c, mode=mode)
+
+
+# ------------------------------------------------------------------ which finding belongs to which property
+
+ACCEPT = {
+    "C14": r"^(audit:c14:|trace:C14:(AddSet|Lookup):|trace:C14:[A-Za-z]+:(Atomicity|KnownIffAllPooled|LookupExact|NoAliasing|TypeOK))",
+    "C05": r"^(audit:c05:|trace:C05:(Obs|Mine|Submit|Revert|Apply|Done|Reset):|trace:C05:[A-Za-z]+:(PrefixValid|Retention|NoInvention|Minable|TypeOK))",
+    "C13": r"^(audit:c13:|trace:C13:(Rebase|TxSet):|trace:C13:AddSet:unexplained:stale-basis|trace:C13:[A-Za-z]+:(Rebase|ParentsFirst|BasisIsTip|TxSetErrors|NoPanic))",
+}
+
+
+def acceptor(prop):
+    rx = re.compile(ACCEPT[prop])
+    return lambda sig: bool(rx.search(sig))
+
+
+COMMON_ASSUMPTIONS = [
+    "go.sia.tech/core (consensus rules, accumulator membership, proof updates) is the trusted oracle; the linear-replay ledger uses only core",
+    "abstract validity = real validity for the generated transactions: siacoin inputs without maturity delay, fees covered, equal block spacing (a heavier chain is never shorter); the harness checks the reorg rule on every submission",
+    "open findings are tolerated by the specification through named deviations (Dev* = TRUE) and reported by the concrete audits; VERIF_POOL_DEVS=none validates against the strict rules",
+    "TLC and the Go runtime are trusted",
+]
+
+
+def evidence(prop, tier, ms, probes, rr, tt, t0, verdict, model_note, extra_assumptions=()):
+    cov = {
+        "states": sum(m.distinct for m in ms), "transitions": sum(m.generated for m in ms),
+        "traces_validated_against_impl": sum(r["paths"] - r["rejected"] for r in rr) + (tt["traces"] if tt else 0),
+        "samples": vlib.trim_samples([s for r in rr for s in r["samples"]] + (tt["samples"] if tt else []), 3),
+        "evaluations": sum(r["evaluations"] for r in rr) + (tt["evaluations"] if tt else 0),
+        "distinct_nontrivial": sum(r["distinct"] for r in rr) + (tt["distinct"] if tt else 0),
+        "rule": "one evaluation per call of the real Manager made by the harness (submission, lookup, reported pool with its audits, "
+                "mined block, rebase, broadcast set); distinct by (scenario, call, arguments, pool before, reply); every call is one event "
+                "validated by TLC against PoolTrace.tla",
+        "model": {"module": "Pool.tla", "note": model_note, "runs": [{"cfg": os.path.basename(m.cmd.split("-config ")[1].split()[0]), "distinct": m.distinct, "transitions": m.generated, "depth": m.depth} for m in ms]},
+        "design_probes": probes,
+        "replay": [{k: v for k, v in r.items() if k not in ("samples",)} for r in rr],
+        "deviations_tolerated": deviations(),
+    }
+    if tt:
+        cov["trace_validation"] = {k: v for k, v in tt.items() if k != "samples"}
+    vlib.write_evidence(prop, tier, "model_checking", cov, COMMON_ASSUMPTIONS + list(extra_assumptions), time.time() - t0, len(verdict.violations))
+
+
+# ------------------------------------------------------------------ C14
+
+def run(tier):
+    t0 = time.time()
+    wd = vlib.workdir(PROP)
+    verdict = vlib.Verdict(PROP)
+    acc = acceptor(PROP)
+    binary = vlib.go_build("poolx", wd)
+    devs = deviations()
+    rng = random.Random(vlib.seed())
+    scens = contract_scenarios(tier)
+    scfile = write_scens(wd, scens, "contract_m")
+    ms = [leg_m(wd, "Pool_contract_mc.cfg", scfile, "contract family (ideal rules)")]
+    probes = {"DevPartialAdd breaks AtomicityStrict": probe(wd, "Pool_dev_partial.cfg", scfile, "DevPartialAdd", ["AtomicityP"], "probe_partial"),
+              "DevSharedIndex breaks LookupExactStrict": probe(wd, "Pool_dev_index.cfg", scfile, "DevSharedIndex", ["LookupExactP"], "probe_index")}
+    if not all(probes.values()):
+        raise vlib.Infra("a named deviation no longer produces its design-level counterexample: %s" % probes)
+    rr = [leg_r(wd, binary, PROP, "Pool_contract_edges.cfg", scens, "contract", rng, verdict, devs, accept=acc)]
+    if tier == "quick":
+        tt = leg_t(wd, binary, PROP, "c14", verdict, devs, histories=96, steps=40, accept=acc)
+    else:
+        tt = leg_t(wd, binary, PROP, "c14", verdict, devs, histories=1200, steps=60, accept=acc, timeout=3000)
+    rc = verdict.finish()
+    evidence(PROP, tier, ms, probes, rr, tt, t0, verdict,
+             "family contract: 2 scenarios (v1+v2 regime, v2-only regime), 7 resp. 6 transactions incl. parent/child, a conflicting pair of each version; "
+             "every injective set of length <= %d, corruption at each position, unknown basis; lookups of v1, v2, unpooled and unknown ids through both functions" % (2 if tier == "quick" else 3))
+    return rc
+
+
+def replay(path):
+    """re-executes the recorded history: the checks are deterministic for a seed, so the run is
+    repeated with the seed of the record and must show the same signature again"""
+    rec = json.load(open(path))
+    seed = (rec.get("replay") or {}).get("seed")
+    if seed is not None:
+        os.environ["VERIF_SEED"] = str(seed)
+    log("replaying with VERIF_SEED=%s: looking for %s" % (os.environ.get("VERIF_SEED", "1"), rec.get("sig")))
+    return run("quick")
+
+
+def corrupt_one(path, pick, change):
+    """rewrites the first event for which pick(e) holds; returns True if one was found"""
+    lines = open(path).read().splitlines()
+    for i, l in enumerate(lines):
+        e = json.loads(l)
+        if pick(e):
+            change(e)
+            lines[i] = json.dumps(e, separators=(",", ":"))
+            open(path, "w").write("\n".join(lines) + "\n")
+            return True
+    return False
+
+
+def selftest_common(prop, wd, binary, scens, edges_cfg, tag, corruptions, stub, stub_expect):
+    """(1) one corrupted field of a good recorded execution -> TLC rejects; (2) the harness misreporting
+    the node on purpose (stub) -> the audits and TLC both object"""
+    ok = True
+    rng = random.Random(1)
+    devs = deviations()
+    scfile = write_scens(wd, scens, tag + "_m")
+    paths, _ = stimulus_paths(wd, edges_cfg, scfile, rng, "edges_" + tag, max_paths=60)
+    v = vlib.Verdict(prop + "-selftest"); v.findings = []
+    replay_paths(wd, binary, scens, paths, tag, v, shards=1)
+    tr = os.path.join(wd, "pooltrace-%s-0.ndjson" % tag); sc = os.path.join(wd, "poolscens-%s-0.json" % tag)
+    good = open(tr).read()
+    v0 = vlib.Verdict(prop + "-selftest"); v0.findings = []
+    _, rej, _ = validate_shard(wd, prop, tr, sc, devs, v0, tag + "_good")
+    log("selftest 0 (the uncorrupted executions are accepted): %s" % ("ok" if rej == 0 else "FAILED"))
+    ok = ok and rej == 0
+    for name, pick, change in corruptions:
+        open(tr, "w").write(good)
+        if not corrupt_one(tr, pick, change):
+            log("selftest 1 (%s): no such event recorded -- FAILED" % name)
+            ok = False
+            continue
+        v1 = vlib.Verdict(prop + "-selftest"); v1.findings = []
+        _, rej, _ = validate_shard(wd, prop, tr, sc, devs, v1, tag + "_bad")
+        sigs = sorted({m["sig"] for m in v1.violations})
+        log("selftest 1 (%s -> TLC rejects): %s %s" % (name, "ok" if rej >= 1 else "FAILED", sigs[:2]))
+        ok = ok and rej >= 1
+    v2 = vlib.Verdict(prop + "-selftest"); v2.findings = []
+    replay_paths(wd, binary, scens, paths, tag + "stub", v2, shards=1, stub=stub)
+    audit_hit = any(re.search(stub_expect, m["sig"]) for m in v2.violations)
+    v3 = vlib.Verdict(prop + "-selftest"); v3.findings = []
+    _, rej, _ = validate_shard(wd, prop, os.path.join(wd, "pooltrace-%sstub-0.ndjson" % tag), os.path.join(wd, "poolscens-%sstub-0.json" % tag), devs, v3, tag + "_stub")
+    log("selftest 2 (harness stub %r: audits object: %s; TLC rejects %d executions): %s" % (stub, audit_hit, rej, "ok" if audit_hit and rej >= 1 else "FAILED"))
+    ok = ok and audit_hit and rej >= 1
+    return ok
+
+
+def selftest():
+    wd = vlib.workdir(PROP + "-selftest")
+    binary = vlib.go_build("poolx", wd)
+    scens = contract_scenarios("quick")
+
+    def set_r(val):
+        def f(e):
+            e["r"] = val
+        return f
+    corr = [("AddSet reply ok -> known", lambda e: e["op"] == "AddSet" and e["r"] == "ok", set_r("known")),
+            ("Lookup found -> absent", lambda e: e["op"] == "Lookup" and e["r"] == "found", set_r("absent")),
+            ("AddSet reply err -> ok", lambda e: e["op"] == "AddSet" and e["r"] == "err", set_r("ok"))]
+    ok = selftest_common(PROP, wd, binary, scens, "Pool_contract_edges.cfg", "st14", corr, "lookup-absent", r"^audit:c14:lookup:.*:absent$")
+    scfile = write_scens(wd, scens, "probe")
+    p1 = probe(wd, "Pool_dev_partial.cfg", scfile, "DevPartialAdd", ["AtomicityP"], "probe_partial")
+    p2 = probe(wd, "Pool_dev_index.cfg", scfile, "DevSharedIndex", ["LookupExactP"], "probe_index")
+    log("selftest 3 (named deviations break the strict properties in TLC): %s" % ("ok" if p1 and p2 else "FAILED"))
+    return 0 if ok and p1 and p2 else 2
